@@ -230,6 +230,71 @@ fn check_msg(lm: &LMsg, k: &Keyed, near: &[(KeySpec, HMACKey)], walk_faults: boo
     rep.nontrivial_by_construction();
 }
 
+/// Keys come and go: a message is protected under one key object, message and key are dropped, and straight away another key
+/// of the same length (another password, another user) is created on the same thread - where the allocator may well hand out
+/// the very memory the first key occupied. Under the second key the first message must be refused by both routes, and a
+/// message encoded under the second key must carry the RFC HMAC of the second key.
+fn keys_come_and_go(rep: &mut Report) {
+    let pairs: Vec<(KeySpec, KeySpec)> = vec![
+        (KeySpec::Short("session-secret-a"), KeySpec::Short("session-secret-b")),
+        (KeySpec::Short("k1"), KeySpec::Short("k2")),
+        (KeySpec::Short("0123456789abcdef0123456789abcdef"), KeySpec::Short("0123456789abcdef0123456789abcdeg")),
+        (
+            KeySpec::Long { user: "user", realm: "example.org", pass: "TheMatrIX", sha256: false },
+            KeySpec::Long { user: "user", realm: "example.org", pass: "TheMatrIx", sha256: false },
+        ),
+        (
+            KeySpec::Long { user: "user", realm: "example.org", pass: "TheMatrIX", sha256: true },
+            KeySpec::Long { user: "usex", realm: "example.org", pass: "TheMatrIX", sha256: true },
+        ),
+    ];
+    let tails: Vec<Vec<L>> = vec![vec![L::Sha], vec![L::Mi], vec![L::Mi, L::Sha], vec![L::Sha, L::Fp], vec![L::Mi, L::Sha, L::Fp]];
+    for round in 0..3u8 {
+        for (a, b) in &pairs {
+            for (first, second) in [(a, b), (b, a)] {
+                for tail in &tails {
+                    rep.eval();
+                    let mut attrs = vec![L::Software("x".into())];
+                    attrs.extend(tail.clone());
+                    let lm = menu::lmsg(1, 2, [round.wrapping_mul(37).wrapping_add(5); 12], attrs);
+                    let replay = || json!({"kind": "key-sequence", "msg": cu::show_msg(&lm), "first_key": first.show(), "second_key": second.show(), "note": "the first key object is dropped before the second one is created, on the same thread"});
+                    // protect under the first key; the message and the key go away
+                    let bytes = {
+                        let Ok(k1) = first.subject() else { continue };
+                        let Ok(msg) = cu::build_msg(&lm, Some(&k1)) else { continue };
+                        let reference = ref_encode(&lm, Some(&first.ref_bytes()));
+                        let Ok(Ok((n, b))) = cu::encode_into(&msg, reference.len() + 16, 0) else { continue };
+                        drop(msg);
+                        drop(k1);
+                        b[..n].to_vec()
+                    };
+                    // ... and the second key appears at once
+                    let Ok(k2) = second.subject() else { continue };
+                    let plain = cu::decoder(Opts::default_ctx(), None);
+                    let validating = cu::decoder(Opts { ctx: true, key: true, validation: true, unknown_data: false, not_ignore: false }, Some(&k2));
+                    let p = ref_parse(&bytes).expect("parses");
+                    for t in p.tlvs.iter().filter(|t| t.ty == T_MI || t.ty == T_SHA) {
+                        match accepted_each(&bytes, t.ty, &k2, &plain, &validating) {
+                            Ok((false, false)) => rep.sym("rejected-under-a-later-key"),
+                            Ok(_) => rep.violate(format!("accepted-under-wrong-key/{}/after-the-right-key-was-dropped", kind_name(t.ty)), format!("encoded under {} accepted under {}", first.show(), second.show()), replay()),
+                            Err(pn) => rep.violate(format!("validation-panics/{}", crate::util::panic_site(&pn)), pn, replay()),
+                        }
+                    }
+                    // a message protected under the second key carries the second key's MAC
+                    if let Ok(msg2) = cu::build_msg(&lm, Some(&k2)) {
+                        let want = ref_encode(&lm, Some(&second.ref_bytes()));
+                        match cu::encode_into(&msg2, want.len() + 16, 0) {
+                            Ok(Ok((n, b))) if b[..n] == want[..] => rep.sym("later-key-macs-are-its-own"),
+                            other => rep.violate("mac-on-wire-is-not-the-rfc-hmac/after-another-key-was-dropped", format!("{:?}", other.map(|r| r.map(|x| x.0))), replay()),
+                        }
+                    }
+                }
+            }
+        }
+    }
+    rep.nontrivial_by_construction();
+}
+
 pub fn run(ctx: &RunCtx) -> i32 {
     let thorough = ctx.thorough();
     let menu_v: Vec<L> = menu::body_menu(thorough).into_iter().filter(|a| value_bytes(a, &[0; 12]).len() <= 64).collect();
@@ -244,6 +309,11 @@ pub fn run(ctx: &RunCtx) -> i32 {
     ];
     let keys = menu::key_menu(true);
     let shared = Shared::new();
+    {
+        let mut r = Report::new();
+        keys_come_and_go(&mut r);
+        shared.merge(r);
+    }
     // key derivation against R-strings + R-crypto
     {
         let mut r = Report::new();
@@ -399,9 +469,9 @@ pub fn run(ctx: &RunCtx) -> i32 {
         rep,
         Finish {
             level: "fault_enumeration",
-            rule: format!("messages with 0..=2 body attributes over the {}-entry menu (values <=64 bytes; long values as singles) x 6 legal tails containing MI and/or SHA256 x {} keys (short-term incl. non-ASCII, long-term MD5 and SHA-256); for each: wire bytes == reference (independent HMAC over the RFC input under the independently derived key), every integrity attribute accepted under the right key whatever tail follows, rejected under every key differing in one character of user / realm / password (or algorithm), and rejected after every single-bit fault in the protected prefix (except header bytes 2-3), the attribute's own header and the MAC (pairs only under the first 3 keys; quick tier: pairs walk faults under one rotating tail). Plus one DATA blob of every length 0..=300 x 3 tails (fault walks for every length in the thorough tier, <=140 in the quick tier) and the deep messages of C01 (offsets around 256..4096 / 32768, long runs, repeats, rotations, quads) x 2 tails under a short-term and a long-term SHA-256 key, without fault walks; the offset family (MI / SHA256 / MI+SHA256+FINGERPRINT behind a filler at every 4-aligned body offset 0..=4200 (thorough 16,400), around multiples of 4096 (1024), every offset 65,300 up to the 65,532-byte maximum). For one walked message in 8 the MAC is also replaced by every value of a pattern family that careless comparisons accept (the same mask on two bytes a multiple of four apart x 3 masks, +1/-1 on neighbouring bytes, swapped / rotated / reversed words, inverted, right only in a prefix or suffix, all zero). Decoy values: a DATA blob whose last 48 bytes imitate the headers of MESSAGE-INTEGRITY / MESSAGE-INTEGRITY-SHA256 / FINGERPRINT at every word, singly and in every pair, x 6 tails. For one message in 16 the untampered and a tampered copy are also decoded by every construction route of the four validating decoder configurations (builder calls in every order, a repeated call, clones of decoder and context) and must get the canonical decoder's verdict. Every message is also re-issued: clones of the attributes of the encoded message in a message with another transaction id must encode to that message's reference bytes. Acceptance = validating decoder returns the attribute OR get_input_text+validate says true. Non-trivial = message that passed all of these", menu_v.len(), keys.len()),
+            rule: format!("messages with 0..=2 body attributes over the {}-entry menu (values <=64 bytes; long values as singles) x 6 legal tails containing MI and/or SHA256 x {} keys (short-term incl. non-ASCII, long-term MD5 and SHA-256); for each: wire bytes == reference (independent HMAC over the RFC input under the independently derived key), every integrity attribute accepted under the right key whatever tail follows, rejected under every key differing in one character of user / realm / password (or algorithm), and rejected after every single-bit fault in the protected prefix (except header bytes 2-3), the attribute's own header and the MAC (pairs only under the first 3 keys; quick tier: pairs walk faults under one rotating tail). Plus one DATA blob of every length 0..=300 x 3 tails (fault walks for every length in the thorough tier, <=140 in the quick tier) and the deep messages of C01 (offsets around 256..4096 / 32768, long runs, repeats, rotations, quads) x 2 tails under a short-term and a long-term SHA-256 key, without fault walks; the offset family (MI / SHA256 / MI+SHA256+FINGERPRINT behind a filler at every 4-aligned body offset 0..=4200 (thorough 16,400), around multiples of 4096 (1024), every offset 65,300 up to the 65,532-byte maximum). For one walked message in 8 the MAC is also replaced by every value of a pattern family that careless comparisons accept (the same mask on two bytes a multiple of four apart x 3 masks, +1/-1 on neighbouring bytes, swapped / rotated / reversed words, inverted, right only in a prefix or suffix, all zero). Decoy values: a DATA blob whose last 48 bytes imitate the headers of MESSAGE-INTEGRITY / MESSAGE-INTEGRITY-SHA256 / FINGERPRINT at every word, singly and in every pair, x 6 tails. For one message in 16 the untampered and a tampered copy are also decoded by every construction route of the four validating decoder configurations (builder calls in every order, a repeated call, clones of decoder and context) and must get the canonical decoder's verdict. Every message is also re-issued: clones of the attributes of the encoded message in a message with another transaction id must encode to that message's reference bytes. Acceptance = validating decoder returns the attribute OR get_input_text+validate says true. Non-trivial = message that passed all of these; key objects that come and go (a message protected under one key, message and key dropped, another key of the same length created at once on the same thread - five key pairs, both orders, five tails, three rounds): the first message is refused under the second key by both routes and a message encoded under the second key carries its RFC HMAC", menu_v.len(), keys.len()),
             assumptions: vec!["R-strings table for the non-ASCII passwords".into()],
-            required_symbols: vec!["key-derivation", "accepted-untampered", "rejected-wrong-key", "fault-walks", "long-values", "prefix-length-sweep", "deep-messages", "offset-family", "decoder-construction-routes", "decoy-values", "mac-patterns", "reissued-with-cloned-attributes"],
+            required_symbols: vec!["key-derivation", "accepted-untampered", "rejected-wrong-key", "fault-walks", "long-values", "prefix-length-sweep", "deep-messages", "offset-family", "decoder-construction-routes", "decoy-values", "mac-patterns", "reissued-with-cloned-attributes", "rejected-under-a-later-key", "later-key-macs-are-its-own"],
             min_outcomes: 2,
             exhaustive: true,
             bounds: json!({"menu": menu_v.len(), "keys": keys.len(), "tails": 6}),
